@@ -77,6 +77,26 @@ def gen_xpx():
     center = _char_array(es, "XalanEXSLTFunctionAlign::s_centerString", tbl, "str:align s_centerString")
     right = _char_array(es, "XalanEXSLTFunctionAlign::s_rightString", tbl, "str:align s_rightString")
     space = _char_array(es, "XalanEXSLTFunctionPadding::s_spaceString", tbl, "str:padding s_spaceString")
+    # str:align: how the third argument is compared with a keyword.  Recognised shapes:
+    #   prefix : equals(keyword, arg.c_str(), |keyword|)                         (only the first |keyword| units)
+    #   exact  : arg.length() == |keyword| && equals(keyword, arg.c_str(), |keyword|)   or   equals(arg, keyword)
+    al = _norm(function_body(es, r"XalanEXSLTFunctionAlign::execute\s*\([^)]*\)\s*const\s*\{", "XalanEXSLTFunctionAlign::execute"))
+
+    def kw_shape(kw, what):
+        n = "sizeof(%s)/sizeof(%s[0])-1" % (kw, kw)
+        pre = "equals(%s,theAlignmentString.c_str(),%s)==true" % (kw, n)
+        if ("theAlignmentString.length()==%s&&%s" % (n, pre)) in al:
+            return True
+        if ("equals(theAlignmentString,%s)" % kw) in al or ("equals(%s,theAlignmentString)" % kw) in al:
+            return True
+        if ("if(%s)" % pre) in al:
+            return False
+        raise AnchorError("str:align: unrecognised comparison of the third argument with " + what)
+    ex_c, ex_r = kw_shape("s_centerString", "'center'"), kw_shape("s_rightString", "'right'")
+    if ex_c != ex_r:
+        raise AnchorError("str:align: 'center' and 'right' are compared differently")
+    align_exact = ex_c
+    need(_lit("if (theAlignment == eLeft)"), al, "str:align: left is the default alignment", 0)
     # ---- decisions
     diff = _norm(function_body(read("XalanExtensions/FunctionDifference.cpp"), r"FunctionDifference::execute\s*\([^)]*\)\s*const\s*\{", "FunctionDifference::execute"))
     m = need(_lit("if (nodeset2.indexOf(theNode)") + r"(==|!=)" + _lit("NodeRefListBase::npos) { theResult->addNodeInDocOrder(theNode, executionContext); }"),
@@ -129,7 +149,7 @@ def gen_xpx():
          math, "findNodes: NaN clears, an equal value is added, a better value restarts the list", 0)
     need(_lit("if (theLength == 0) { return executionContext.getXObjectFactory().createNumber(DoubleSupport::getNaN()); }"), math, "findValue: empty node-set gives NaN", 0)
     facts = {"delims": delims, "center": center, "right": right, "space": space, "diff_keep_found": diff_keep_found,
-             "inter_keep_found": inter_keep_found, "lead_excl_self": lead_excl_self, "dirs": dirs}
+             "inter_keep_found": inter_keep_found, "lead_excl_self": lead_excl_self, "dirs": dirs, "align_exact": align_exact}
     b = lambda v: "true" if v else "false"
     text = HEADER + "\n".join([
         "From Coq Require Import List NArith Bool.", "Import ListNotations.", "",
@@ -139,6 +159,8 @@ def gen_xpx():
         "Definition gen_align_center : list N := %s." % _nlist(center),
         "Definition gen_align_right : list N := %s." % _nlist(right),
         "Definition gen_padding_default : list N := %s." % _nlist(space),
+        "(* str:align compares the whole third argument with the keyword (true) or only its first |keyword| units (false) *)",
+        "Definition gen_align_exact_keyword : bool := %s." % b(align_exact),
         "(* FunctionDifference / FunctionIntersection: a node of the first list is kept when (it is found in the second) = flag *)",
         "Definition gen_difference_keep_found : bool := %s." % b(diff_keep_found),
         "Definition gen_intersection_keep_found : bool := %s." % b(inter_keep_found),
